@@ -85,6 +85,12 @@ func isErrorWrapperFunc(pass *analysishelper.EnhancedPass, call *ast.CallExpr) b
 		return false
 	}
 
+	// An explicit `nilable(result 0)` annotation on the declaration is binding: the author states
+	// that the function may return nil, so it must not be assumed to return a non-nil error.
+	if resultIsAnnotatedNilable(pass, funcObj) {
+		return false
+	}
+
 	// Check if the function is an error wrapper: consumes an error and returns an error.
 	for _, arg := range call.Args {
 		// Check if the argument is a call expression.
@@ -131,6 +137,17 @@ func isErrorWrapperFunc(pass *analysishelper.EnhancedPass, call *ast.CallExpr) b
 	}
 
 	return false
+}
+
+// resultIsAnnotatedNilable returns true iff the single result of the function is explicitly annotated
+// as nilable. The annotations read from the docstrings are only available for the functions declared in
+// the package under analysis (and only if the running analyzer requires the annotation analyzer).
+func resultIsAnnotatedNilable(pass *analysishelper.EnhancedPass, funcObj *types.Func) bool {
+	res, ok := pass.ResultOf[annotation.Analyzer].(*analysishelper.Result[*annotation.ObservedMap])
+	if !ok || res == nil || res.Err != nil {
+		return false
+	}
+	return res.Res.ResultIsAnnotatedNilable(funcObj.Origin(), 0)
 }
 
 type assumeReturnAction func(call *ast.CallExpr) *annotation.ProduceTrigger
